@@ -3031,6 +3031,11 @@ func (l *channelLink) processRemoteAdds(fwdPkg *channeldb.FwdPkg) {
 	// settle/fail update.
 	unackedAdds := make([]*lnwire.UpdateAddHTLC, 0, len(fwdPkg.Adds))
 
+	// unackedIdx holds, for each entry of unackedAdds, its index within
+	// the forwarding package. The two differ once an ADD of the package
+	// has been acked, as acked ADDs are skipped below.
+	unackedIdx := make([]uint16, 0, len(fwdPkg.Adds))
+
 	for i, update := range fwdPkg.Adds {
 		// If this index is already found in the ack filter, the
 		// response to this forwarding decision has already been
@@ -3060,6 +3065,7 @@ func (l *channelLink) processRemoteAdds(fwdPkg *channeldb.FwdPkg) {
 
 			decodeReqs = append(decodeReqs, req)
 			unackedAdds = append(unackedAdds, msg)
+			unackedIdx = append(unackedIdx, uint16(i))
 		}
 	}
 
@@ -3083,7 +3089,10 @@ func (l *channelLink) processRemoteAdds(fwdPkg *channeldb.FwdPkg) {
 	var switchPackets []*htlcPacket
 
 	for i, update := range unackedAdds {
-		idx := uint16(i)
+		// NOTE: The index must be the ADD's index within the forwarding
+		// package, not its position among the unacked ADDs, as it's
+		// used to reference the ADD in the package's filters.
+		idx := unackedIdx[i]
 		sourceRef := fwdPkg.SourceRef(idx)
 		add := *update
 
